@@ -76,7 +76,7 @@ CHECKS = {
                   'oracle correspondence: characteristic functions of the DEM vs the specification with fault variables',
         text='Proof: (G) every unitary undo_* routine of SparseUnsignedRevFrameTracker and its dispatch is regenerated from source and '
              'proved to be the unsigned action of the table\'s inverse gate; adjoint (backward sensitivity = forward fault propagation, '
-             'any circuit over every unitary of the generated gate table, single-qubit Pauli measurements and resets, any n: AdjGen.adjoint_all_gates + TableAdj.table_adjoint); xor_convolution_merge, conv_comm, depolarize1_independent over Q. Tie O: one symbolic '
+             'any circuit over every unitary of the generated gate table, single-qubit Pauli measurements and resets, any n: AdjGen.adjoint_all_gates + TableAdj.table_adjoint; the measurement / reset undo routines of the tracker and of the analyzer itself, regenerated from source, are that theorem\'s backward steps for the documented basis: GenProofs_RevMeas); xor_convolution_merge, conv_comm, depolarize1_independent over Q. Tie O: one symbolic '
              'run of the specification with a fault variable per elementary fault gives every channel outcome\'s symptom set; the '
              'implementation\'s model must define the same joint distribution, compared through E[(-1)^(s.x)] on all unit vectors, '
              'pairs and random vectors (exact to 1e-7; with approximate_disjoint_errors within the first-order bound 2*P^2 per '
@@ -209,7 +209,7 @@ CHECKS = {
         technique='oracle: every reported location is re-simulated in the Coq-extracted specification with a fault variable; lemmas on '
                   'affine forms and adjointness',
         text='Proof: forms are affine and detector forms are XORs of record forms under every assignment (so the detectors flipped by '
-             'one injected fault are exactly those whose form contains its variable); adjoint_all_gates (whole gate set). Tie O: for random '
+             'one injected fault are exactly those whose form contains its variable); adjoint_all_gates (whole gate set) with the regenerated measurement / reset undo routines of tracker and analyzer as its backward steps (GenProofs_RevMeas). Tie O: for random '
              'annotated noisy circuits (all channel kinds, measurement noise, heralded channels, ELSE chains, feedback, MPP, nested '
              'REPEAT, TICKs) every location returned by ErrorMatcher::explain_errors_from_circuit is mapped through its stack frames '
              'to a position of the unrolled circuit; the reported Pauli product is injected there (or the reported measurement result '
@@ -222,7 +222,7 @@ CHECKS = {
                   'generated reverse-tracker obligations, adjointness, measurement update of stabilizer groups',
         text='Proof: flows of a Clifford map are closed under products with exact signs, functional in the input and generated by the '
              '2n row flows (Flow.v over Tab.eval_hom, any n); every undo routine of SparseUnsignedRevFrameTracker regenerated from source '
-             'is the inverse gate\'s unsigned action; adjoint_all_gates (whole gate set); Span.spec_measure_group_char. Tie O: for random noiseless circuits (all '
+             'is the inverse gate\'s unsigned action; adjoint_all_gates (whole gate set) and the regenerated measurement / reset undo routines as its backward steps (GenProofs_RevMeas); Span.spec_measure_group_char. Tie O: for random noiseless circuits (all '
              'gates, resets, measurements incl. pair/product, feedback) one Bell pair per qubit is prepared in Spec.srun, the circuit is '
              'applied to one half and a flow P -> Q xor rec[M] holds iff P^T (x) Q is determined and its sign form plus the record forms '
              'of M is the constant of the flow\'s sign (mask 0 for unsigned). Checked: every generator returned by flow_generators is a '
